@@ -411,6 +411,83 @@ def gen_script(r, ncell, ntxn, write_p=0.5, rc_p=0.0, abort_p=0.08,
     return out
 
 
+def gen_pokers(r, ncell):
+    """Bystander threads that ask the storage itself questions while the
+    clients commit, undo and resolve conflicts: getTid, history,
+    loadSerial, undoLog, lastInvalidations -- the read-only calls that go
+    through the storage's own file handle rather than a pooled one."""
+    out = []
+    for _ in range(r.choice((1, 1, 2))):
+        out.append({'delay': r.choice((0, 20, 60, 150, 300)),
+                    'gap': r.choice((0, 1, 3, 8, 20)),
+                    'calls': [[r.choice(('getTid', 'history', 'loadSerial',
+                                         'loadSerial', 'undoLog',
+                                         'lastInvalidations')),
+                               r.randrange(ncell)]
+                              for _ in range(r.randint(5, 40))]})
+    return out
+
+
+def poker_task(spec, results):
+    def run(w):
+        s = w.sim.sched
+        for _ in range(spec['delay']):
+            s.yield_point('idle', None)
+        st = w.db.storage
+        for kind, k in spec['calls']:
+            oid = w.oids[k % len(w.oids)]
+            try:
+                if kind == 'getTid':
+                    r = st.getTid(oid)
+                elif kind == 'history':
+                    r = [d['tid'] for d in st.history(oid, size=4)]
+                elif kind == 'loadSerial':
+                    tid = st.getTid(oid)
+                    r = (tid, st.loadSerial(oid, tid))
+                elif kind == 'undoLog':
+                    r = len(st.undoLog(0, -6)) if hasattr(st, 'undoLog') \
+                        else 0
+                else:
+                    r = len(st.lastInvalidations(5) or ()) \
+                        if hasattr(st, 'lastInvalidations') else 0
+                results.append((kind, oid, r, None))
+            except Exception as e:      # noqa: B902
+                results.append((kind, oid, None, e))
+            for _ in range(spec['gap']):
+                s.yield_point('idle', None)
+    return run
+
+
+def check_pokers(w, log, results, packed=False):
+    """What the bystanders were told is part of the committed history
+    (packed: revisions may have been removed since, only what is still
+    there is compared)."""
+    from ZODB.POSException import POSKeyError
+    for kind, oid, r, e in results:
+        w.stats['poker:' + kind] = w.stats.get('poker:' + kind, 0) + 1
+        if e is not None:
+            if isinstance(e, (POSKeyError, NotImplementedError)):
+                continue    # (packed away / not offered by the storage)
+            w.flag('bystander-exception', '%s(%r) raised %s: %s'
+                   % (kind, oid, type(e).__name__, str(e)[:80]))
+            continue
+        revs = dict(log.revisions(oid)) if hasattr(log, 'revisions') else {}
+        if log.has_shadow():
+            revs.update(dict(log.shadow_view().revisions(oid)))
+        if packed and kind in ('getTid', 'history'):
+            continue
+        if kind == 'getTid' and r not in revs and revs:
+            w.flag('bystander-answer', 'getTid(%r) = %r, which is no '
+                   'committed revision of it' % (oid, r))
+        elif kind == 'history' and revs and any(t not in revs for t in r):
+            w.flag('bystander-answer', 'history(%r) names %r, committed '
+                   'revisions are %r' % (oid, r, sorted(revs)))
+        elif kind == 'loadSerial' and r[0] in revs and \
+                revs[r[0]].data is not None and r[1] != revs[r[0]].data:
+            w.flag('bystander-answer', 'loadSerial(%r, %r) returned other '
+                   'bytes than that revision holds' % (oid, r[0]))
+
+
 def run_world(case, extra_tasks=None):
     """Build the world, run the client tasks under the scheduler, return
     (world, sched)."""
@@ -431,6 +508,10 @@ def run_world(case, extra_tasks=None):
         s.spawn('client%d' % i, ct.run)
     for name, fn in (extra_tasks or []):
         s.spawn(name, lambda fn=fn: fn(w))
+    w.poker_results = []
+    for i, spec in enumerate(case.get('pokers') or ()):
+        fn = poker_task(spec, w.poker_results)
+        s.spawn('bystander%d' % i, lambda fn=fn: fn(w))
     w.tasks = tasks
     s.run()
     w.sched = s
